@@ -85,7 +85,7 @@ def coq_case(r):
 CLAIM_POOL = ["h:Alice", "h:Bob", "n:41", "n:-7", "h:", "h:90210", "n:0", "h:Zoe"]
 
 
-def base_scenario(rng, suite, n_creds=1, n_claims=None, eq=False, comm=False, disclosed=None, venc=None, rev=False, one_issuer=False):
+def base_scenario(rng, suite, n_creds=1, n_claims=None, eq=False, comm=False, disclosed=None, venc=None, rev=False, one_issuer=False, mem=False):
     creds = []
     n_issuers = (1 if one_issuer else rng.choice([1, n_creds])) if n_creds > 1 else 1
     common_val = rng.choice(["h:Alice", "h:link", "n:5"])
@@ -108,7 +108,7 @@ def base_scenario(rng, suite, n_creds=1, n_claims=None, eq=False, comm=False, di
     stmts = []
     for ci, c in enumerate(creds):
         n = len(c["claims"])
-        cand = list(range(2, n)) if (eq or comm) else list(range(1, n))
+        cand = list(range(2, n)) if (eq or comm or mem) else list(range(1, n))
         if disclosed is not None:
             d = [i for i in disclosed if i < n]
         else:
@@ -127,6 +127,12 @@ def base_scenario(rng, suite, n_creds=1, n_claims=None, eq=False, comm=False, di
     if rev:
         # revocation statement on the identifier (claim 0) of credential 0; the registry value is the issuer's current one
         stmts.append({"k": "rev", "id": "r0", "ref": "s0", "claim": 0})
+    if mem:
+        # set-membership statement (the verifier's own accumulator) on a hidden claim of credential 0
+        n = len(creds[0]["claims"])
+        sig0 = next(x for x in stmts if x["k"] == "sig" and x["id"] == "s0")
+        hidden = [i for i in range(1, n) if i not in sig0["disclosed"]]
+        stmts.append({"k": "mem", "id": "m0", "ref": "s0", "claim": rng.choice(hidden) if hidden else 0})
     if venc is not None:
         n = len(creds[0]["claims"])
         sig0 = next(x for x in stmts if x["k"] == "sig" and x["id"] == "s0")
